@@ -10,6 +10,8 @@ pub mod util;
 #[cfg(kani)]
 pub mod c04;
 #[cfg(kani)]
+pub mod c10;
+#[cfg(kani)]
 pub mod c11;
 #[cfg(kani)]
 pub mod c27;
